@@ -58,11 +58,11 @@ func faultyDest(name string, maxFaulty int) *hx.ScriptPub {
 // settleCheck: every delivery whose destination call failed is nacked, every delivery acked only after an
 // accepting call; returns nothing, fails through vs.Fail.
 type relayed struct {
-	uuid  string
-	topic string
-	meta  message.Metadata
-	pay   string
-	ok    bool
+	uuid          string
+	topic         string
+	meta          message.Metadata
+	pay           string
+	ok            bool
 	settledInside string
 }
 
